@@ -170,10 +170,13 @@ PROPERTY_RULES = {
                        "is_isolated = is_sink AND is_source, sinks/sources filter vertices() by is_sink/is_source, the "
                        "semidegree/outdegree sequences map vertices() to (indegree, outdegree) / outdegree. The threaded "
                        "AdjacencyList::degree_sequence splits the rows with chunks(div_ceil(order, t)) inside thread::scope and "
-                       "its workers write only their own histogram (CONC).",
+                       "its workers write only their own histogram (CONC). has_walk tests has_arc on every consecutive pair: all() "
+                       "over walk.iter().zip(walk.iter().skip(1)) / walk.windows(2), or a cursor loop from as_ptr to as_ptr + (len-1) "
+                       "that advances by exactly one vertex, tests has_arc(*p, *(p+1)) in every iteration, and is left with false "
+                       "exactly on a failed pair and true at the end (DEFN, has_walk clause).",
         "trusted_base": TB + ["lemma L-ROWMAJOR for the bit-matrix cell index"],
         "not_decided": "the value of the primitive queries themselves (order, size, has_arc, indegree, outdegree, neighbours, "
-                       "has_walk's truth value, the threaded degree_sequence): value-level; a derived query rewritten so that it "
+                       "the threaded degree_sequence): value-level; a derived query rewritten so that it "
                        "no longer calls the primitive queries is reported as not decided, not as a violation",
         "assumptions": COMMON_ASSUMPTIONS,
     },
@@ -197,7 +200,8 @@ PROPERTY_RULES = {
         "rules": ["FW-SHAPE", "LAYOUT"],
         "explanation": "FloydWarshall::distances: the update dist[a][c] = dist[a][b] + dist[b][c] has the intermediate vertex b "
                        "in the outermost of three complete loops (F1), both operands are tested != isize::MAX (F2), the store is "
-                       "guarded by sum < dist[a][c] of the written cell (F3), weights go to cell (u, v) and 0 to (i, i) for all "
+                       "guarded by sum < dist[a][c] of the written cell (F3), no other test than those, or a coincidence of two loop "
+                       "indices, can bypass the update inside the triple loop (F5: no pruning), weights go to cell (u, v) and 0 to (i, i) for all "
                        "arcs / vertices (F4); every cell is addressed row-major as row*order+col, consistent with "
                        "DistanceMatrix::{Index, IndexMut, eccentricities, new} (LAYOUT).",
         "trusted_base": TB,
@@ -281,7 +285,10 @@ PROPERTY_RULES = {
         "explanation": "For the 8 callers of available_parallelism: the thread count is map_or(1, NonZero::get) (>= 1); every "
                        "thread::spawn handle is kept and joined by a complete loop before any normal return, scoped spawns are "
                        "inside thread::scope (JOIN); workers write shared memory only at their own partition index / through an "
-                       "exclusive &mut capture / under a Mutex / as a monotone `false` store (WRITES); the row partition matches "
+                       "exclusive &mut capture / under a Mutex / as a monotone `false` store (WRITES); in a worker that shares such a "
+                       "flag, every path that starts where a pair has just failed both membership tests stores `false` before the "
+                       "next pair is tested or the worker returns (flag-published-on-failure, a path rule with constant propagation "
+                       "of the two test results); the row partition matches "
                        "start = k*c or step_by(c), end = min(n, start + c), c = div_ceil(n, t), or chunks(c) (TILE); the CPU count "
                        "reaches PRNG seeds only in the two allowed generators (NONDET).",
         "trusted_base": TB + ["lemma L-TILE", "tables/trusted_tiles.json (AdjacencyMap::union merge path)"],
@@ -295,16 +302,21 @@ PROPERTY_RULES = {
                        "Full scans: eccentricities maps every row of dist.chunks(order) to row.iter().max().unwrap_or(&infinity), "
                        "diameter is max over eccentricities() (unwrap_or(&infinity)), is_connected is all(e != infinity) over "
                        "eccentricities(); none of the three (nor a closure of theirs) contains a restricting adaptor (skip, take, "
-                       "step_by, filter, find, ...) or a sub-slice, so every cell can influence the result.",
+                       "step_by, filter, find, ...) or a sub-slice, so every cell can influence the result. center is one complete "
+                       "loop over eccentricities().enumerate() in which e.cmp(&min) dominates every latch (no vertex is skipped), the "
+                       "vertex is pushed exactly on Less / Equal, the list cleared and the minimum (started at infinity) updated "
+                       "exactly on Less, and the list is returned; periphery is enumerate().filter_map(|(i, e)| (e == diameter())"
+                       ".then_some(i)).",
         "trusted_base": TB,
-        "not_decided": "center / periphery values and the comparison semantics of W; a query rewritten away from eccentricities() "
-                       "without restricting adaptors is reported as not decided",
+        "not_decided": "the comparison semantics of W; a query rewritten away from these spellings without restricting adaptors is "
+                       "reported as not decided",
         "assumptions": COMMON_ASSUMPTIONS,
     },
     "C19": {
         "rules": ["TERMINATE", "MEM-SEARCH"],
         "explanation": "PredecessorTree::search_by: every iteration that continues marks a vertex that was tested unmarked "
-                       "(at most len iterations), search delegates to search_by, the raw visited[] accesses are bounds-discharged, "
+                       "(at most len iterations), every return of search(s, t) is the result of search_by(s, |v, _| v == t) (no shortcut "
+                       "around the walk), the raw visited[] accesses are bounds-discharged, "
                        "and apart from reading pred[s] for the start vertex no panic site of the walk is left undischarged.",
         "trusted_base": TB,
         "not_decided": "'returns Some exactly when ...' and the shape of the returned path: value-level",
@@ -345,7 +357,8 @@ PROPERTY_RULES = {
                        "distances: None only on the empty-heap edge (J1), min-heap on Reverse<key> (J2), every push is "
                        "dominated by a strict `new < dist[v]` test, stores that key into dist[v] and the key is popped "
                        "key + arc weight (J3), an entry is emitted only under `popped key == dist[vertex]` (J4), the "
-                       "neighbour scan is complete (J5), sources get dist 0 and key Reverse(0) (J6), yielded values are "
+                       "neighbour scan is complete and exhausted before the popped vertex is yielded (J5), sources get dist 0 and key "
+                       "Reverse(0) (J6), yielded values are "
                        "the popped ones and distances() folds them into a usize::MAX-filled vector (J7).",
         "trusted_base": SCHEMA_TB,
         "not_decided": "optimality and emission order as values (they follow from J2-J4 by the standard proof, which is not "
@@ -356,7 +369,8 @@ PROPERTY_RULES = {
         "rules": ["EXHAUST-BFS", "SCHEMA-BFS"],
         "explanation": "Bfs and BfsDist are checked against the BFS schema: None only on the empty-queue edge (B1), a vertex "
                        "is enqueued only under a dominating `not visited` test and marked on the same path (B2), the scan "
-                       "of out_neighbors(dequeued vertex) is complete (B3), FIFO pop_front/push_back (B4), every source is "
+                       "of out_neighbors(dequeued vertex) is complete and exhausted before the vertex is yielded (B3), FIFO "
+                       "pop_front/push_back (B4), every source is "
                        "enqueued and marked by new (B5), the dequeued element is the one yielded, level = parent level + 1, "
                        "distances() stores the yielded level at the yielded vertex in a usize::MAX-filled vector (B6).",
         "trusted_base": SCHEMA_TB,
@@ -379,9 +393,10 @@ PROPERTY_RULES = {
         "rules": ["EXHAUST-DFS", "SCHEMA-DFS"],
         "explanation": "Dfs, DfsDist and DfsPred are checked against the explicit-stack DFS schema: a stale stack entry must "
                        "not end the iteration (D1, EXHAUST), a vertex is yielded only under a `not visited` test and after "
-                       "being marked (D2), every out-neighbour of the popped vertex is scanned and pushed unless visited "
-                       "(D3), Vec::pop/push LIFO (D4), pushed predecessor = popped vertex, pushed depth = popped depth + 1, "
-                       "seeds are exactly the sources with None / 0 (D5).",
+                       "being marked (D2), every out-neighbour of the popped vertex is scanned (to exhaustion, before the yield) and "
+                       "pushed unless visited (D3), Vec::pop/push LIFO (D4), pushed predecessor = popped vertex, pushed depth = popped "
+                       "depth + 1, seeds are exactly the sources with None / 0 (D5); predecessors()/distances() record every item of "
+                       "the traversal (a skip/take/filter/... on self is a violation).",
         "trusted_base": SCHEMA_TB,
         "not_decided": "the preorder as a value; D1 is violated on the current tree (known finding F2, pinned by four existing tests)",
         "assumptions": COMMON_ASSUMPTIONS + ["mark-on-pop stack DFS (design choice encoded in the schema)"],
